@@ -137,7 +137,7 @@ TABLE = {
     SS + "index:index#1": {"class": "state", "need": [["Option::take(this.current_frame_size)", "is", "None"]], "why": "size_vec[..offset] with offset <= size_vec.len(), as index_mut#3"},
     SS + "explicit:panic:panic_fmt#1": {"class": "config", "need": [["this.codec", "is", "Unspecified"]], "why": "protocol registered without a codec: local configuration error"},
     "substream::read_payload_size|assert:BoundsCheck:BoundsCheck#1": {"class": "guard", "need": [["i", "in", "0..cmp::min(len(buffer))"]], "why": "i < min(len, max_len) <= len"},
-    "substream::read_payload_size|index:index#1": {"class": "guard", "need": [["i", "in", "0..cmp::min(len(buffer))"]], "why": "buffer[..=i] with i < len"},
+    "substream::read_payload_size|index:index#1": {"class": "guard", "need": [["i", "<", "len(buffer)"]], "why": "buffer[..=i] with i < len: i ranges over 0..min(buffer.len(), max_len), or is an index handed out by an iterator over the buffer"},
     # ---------------------------------------------------------------- codec / keys / peer ids / address store (local data)
     "Identity::new|explicit:assert:panic#1": {"class": "config", "need": [["0", "==", "payload_len"]], "why": "assert!(payload_len != 0) on a locally configured frame size"},
     "UnsignedVarint::encode|explicit:assert:panic#1": {"class": "config", "need": [["MAX", "<", "len(payload)"]], "why": "encode path, local payload larger than u32::MAX"},
